@@ -10,6 +10,7 @@ from cirbo.minimization.simplification import (  # noqa: F401
 )
 
 NS = dict(
+    iter=iter,
     RRG=RemoveRedundantGates, MU=MergeUnaryOperators, MD=MergeDuplicateGates, ME=MergeEquivalentGates,
     Transformer=Transformer, cleanup=cleanup,
 )
@@ -21,6 +22,12 @@ IMPORTS = (
 )
 
 BASIC = ["RRG()", "RRG(allow_inputs_removal=True)", "MU()", "MD()", "ME()"]
+# apply_transformers documents an Iterable of passes: the same lists handed over as one-shot iterators
+ONE_SHOT = ["iter([MU(), MD()])", "iter([RRG(), RRG(allow_inputs_removal=True)])", "iter([MD(), MU(), RRG()])", "iter([ME()])"]
+
+
+def is_pipeline_object(obj):
+    return isinstance(obj, list) or hasattr(obj, "__next__")
 
 
 def pass_specs(thorough, rnd):
@@ -30,7 +37,7 @@ def pass_specs(thorough, rnd):
     lists = [f"[{a}, {b}]" for a in BASIC for b in BASIC] + [f"[{a} | {b}, {c}]" for a in BASIC[2:] for b in BASIC[:3] for c in BASIC[2:]]
     nested = ["((MU() | MD()) | (RRG() | ME()))", "(RRG() | (RRG() | RRG()))", "[RRG(), RRG(), MU(), MU()]",
               "(MD() | (MU() | RRG(allow_inputs_removal=True)))"]
-    specs += ["cleanup(False)", "cleanup(True)"] + nested
+    specs += ["cleanup(False)", "cleanup(True)"] + nested + ONE_SHOT
     if thorough:
         specs += two + rnd.sample(three, 40) + lists
     else:
@@ -46,13 +53,13 @@ def apply_spec(spec, c, reuse=False):
     must be reusable: applying it to one circuit must not influence the next application)."""
     if spec.startswith("cleanup("):
         return cleanup(c, use_heavy=spec == "cleanup(True)")
-    if reuse:
+    if reuse and not spec.startswith("iter("):
         if spec not in _OBJECTS:
             _OBJECTS[spec] = eval(spec, dict(NS))  # noqa: S307
         obj = _OBJECTS[spec]
     else:
         obj = eval(spec, dict(NS))  # noqa: S307 - fixed vocabulary above
-    if isinstance(obj, list):
+    if is_pipeline_object(obj):
         return Transformer.apply_transformers(c, obj)
     return obj.transform(c)
 
@@ -62,7 +69,7 @@ APPLY_SRC = (
     "    if spec.startswith('cleanup('):\n"
     "        return cleanup(c, use_heavy=spec == 'cleanup(True)')\n"
     "    obj = eval(spec)\n"
-    "    if isinstance(obj, list):\n"
+    "    if isinstance(obj, list) or hasattr(obj, '__next__'):\n"
     "        return Transformer.apply_transformers(c, obj)\n"
     "    return obj.transform(c)\n"
 )
